@@ -40,12 +40,17 @@ def r_prov(E):
                     f"{c}.{x} (and whatever derives from it)", s.path, s.node.lineno, s.func,
                     {"context": f"{c}.update_{x}"}))
         for w in cx.writes.get(x, []):
-            deps = {(r[0], r[1]) for r in w.valdeps}
-            A = E.anc_star(w.parents)
-            # the attribute itself is not its own ancestor: ignore self-reference produced by `self.X[k] += ...`
-            deps.discard((c, x))
-            res.instances += len(deps)
-            miss = deps - A
+            # one obligation set per branch alternative of the written value (a parent recorded on one arm of an
+            # if/else must not hide its absence on the other arm)
+            alts = w.alts or ((w.parents, w.valdeps),)
+            miss, deps = set(), set()
+            for anc_a, deps_a in alts:
+                d = {(r[0], r[1]) for r in deps_a}
+                d.discard((c, x))     # the attribute is not its own ancestor (`self.X[k] += ...`)
+                A = E.anc_star(anc_a)
+                res.instances += len(d)
+                miss |= d - A
+                deps |= d
             if miss:
                 key = f"{c}.update_{x} write :: {norm(w.node)[:120]} misses {','.join(sorted({m[1] for m in miss}))}"
                 if key in seen_keys:
